@@ -197,7 +197,7 @@ def scn_suffstat(model, T, scheme, grid):
     return scn
 
 
-def scn_suffstat_batched(T, scheme, grid=None):
+def scn_suffstat_batched(T, scheme, grid=None, theta_batched=True):
     """skyride / skygrid sufficient statistics with batched thetas and heights (each sample has its own event ordering): either the call
     raises (an unsupported shape) or row b of the statistics and counts reproduces log_prob of sample b"""
     from contracts.C08 import SCHEMES, _heights, _require_genealogy
@@ -212,12 +212,12 @@ def scn_suffstat_batched(T, scheme, grid=None):
             if grid is None:
                 _require_genealogy(mk, tips, h, (2,), T)
                 G = T - 1
-                theta = mk.real("theta", (2, G), lo=0)
+                theta = mk.real("theta", (2, G) if theta_batched else (G,), lo=0)
                 dist = co.PiecewiseConstantCoalescent(theta)
             else:
                 _require_genealogy(mk, tips, h, (2,), T, grid)
                 G = len(grid) + 1
-                theta = mk.real("theta", (2, G), lo=0)
+                theta = mk.real("theta", (2, G) if theta_batched else (G,), lo=0)
                 dist = co.PiecewiseConstantCoalescentGrid(theta, torch.tensor(grid, dtype=torch.float64))
             lp = dist.log_prob(nh)
             try:
@@ -234,7 +234,8 @@ def scn_suffstat_batched(T, scheme, grid=None):
         for b in range(2):
             tot = 0
             for g in range(G):
-                tot = tot - el(ss, (b, g)) / el(theta, (b, g)) - el(cnt, (b, g)) * slog(el(theta, (b, g)))
+                th_ = el(theta, (b, g)) if theta_batched else el(theta, (g,))
+                tot = tot - el(ss, (b, g)) / th_ - el(cnt, (b, g)) * slog(th_)
             spec.append(tot)
         return [("eq", "sufficient_statistics_reproduce_log_prob", lp, spec)]
     return scn
@@ -623,6 +624,9 @@ def obligations(tier, seed):
     for T in (3,) if tier == "quick" else (3, 4):
         for scheme in ("serial", "ties"):
             add("C20.suffstat.skyride.batched[T=%d,%s]" % (T, scheme), "scn_suffstat_batched", (T, scheme), "sufficient statistics reproduce log_prob (batched, per-sample orderings)")
+            if T == 3:
+                add("C20.suffstat.skyride.batched[T=%d,%s,theta unbatched]" % (T, scheme), "scn_suffstat_batched", (T, scheme, None, False), "sufficient statistics reproduce log_prob (node heights batched, population sizes not) or the call raises")
+                add("C20.suffstat.skygrid.batched[T=%d,%s,grid=[0.4, 2.5],theta unbatched]" % (T, scheme), "scn_suffstat_batched", (T, scheme, [0.4, 2.5], False), "sufficient statistics reproduce log_prob (node heights batched, population sizes not) or the call raises")
             if T == 3:   # two samples x two grid points: the event orderings of T=4 exceed the budget
                 add("C20.suffstat.skygrid.batched[T=%d,%s,grid=[0.4, 2.5]]" % (T, scheme), "scn_suffstat_batched", (T, scheme, [0.4, 2.5]), "sufficient statistics reproduce log_prob (batched, per-sample orderings) or the call raises")
     for N in (2, 3):
